@@ -1572,6 +1572,10 @@ class OperatorLeftScalarMult(Operator):
                                       operator.range.field,
                                       operator.range))
 
+        if isinstance(scalar, Integral):
+            # Fixed-width integers can overflow when scalars are merged
+            scalar = int(scalar)
+
         if isinstance(operator, OperatorLeftScalarMult):
             # Shortcut to save performance in case of repeated multiplications
             scalar = scalar * operator.scalar
@@ -1741,6 +1745,10 @@ class OperatorRightScalarMult(Operator):
             raise OpDomainError('`tmp` {!r} not an element of the '
                                 'operator domain {!r}'
                                 ''.format(tmp, operator.domain))
+
+        if isinstance(scalar, Integral):
+            # Fixed-width integers can overflow when scalars are merged
+            scalar = int(scalar)
 
         if isinstance(operator, OperatorRightScalarMult):
             # Shortcut to save performance in case of repeated multiplications
